@@ -27,16 +27,28 @@ Definition mmt_get (raw : string) : mmt :=
 
 Record mapmatcher := MM { mm_key : string; mm_value : string; mm_type : string }.
 
-Definition mm_match (m : mapmatcher) (mm : smap) : bool :=
+(* ASCII lower-casing: what SQLite's LIKE compares modulo (DESIGN.md F4) *)
+Definition ascii_lower (a : ascii) : ascii :=
+  let n := nat_of_ascii a in
+  if (Nat.leb 65 n && Nat.leb n 90)%bool then ascii_of_nat (n + 32) else a.
+Fixpoint str_lower (s : string) : string :=
+  match s with EmptyString => EmptyString | String a r => String (ascii_lower a) (str_lower r) end.
+Definition fold_ci (ci : bool) (s : string) : string := if ci then str_lower s else s.
+
+(* [ci]: prefix / suffix / substring matchers compare ASCII-case-insensitively (ent on SQLite);
+   the documented rule, and the in-memory repository, is ci = false *)
+Definition mm_match_gen (ci : bool) (m : mapmatcher) (mm : smap) : bool :=
   match mmt_get (mm_type m) with
   | MHasKey => is_some (sm_get mm (mm_key m))
   | MExact => match sm_get mm (mm_key m) with Some v => String.eqb v (mm_value m) | None => false end
-  | MForward => match sm_get mm (mm_key m) with Some v => has_prefix v (mm_value m) | None => false end
-  | MBackward => match sm_get mm (mm_key m) with Some v => has_suffix v (mm_value m) | None => false end
-  | MMiddle => match sm_get mm (mm_key m) with Some v => contains v (mm_value m) | None => false end
+  | MForward => match sm_get mm (mm_key m) with Some v => has_prefix (fold_ci ci v) (fold_ci ci (mm_value m)) | None => false end
+  | MBackward => match sm_get mm (mm_key m) with Some v => has_suffix (fold_ci ci v) (fold_ci ci (mm_value m)) | None => false end
+  | MMiddle => match sm_get mm (mm_key m) with Some v => contains (fold_ci ci v) (fold_ci ci (mm_value m)) | None => false end
   end.
+Definition mm_match := mm_match_gen false.
 
-Definition mms_match (l : list mapmatcher) (mm : smap) : bool := forallb (fun m => mm_match m mm) l.
+Definition mms_match_gen (ci : bool) (l : list mapmatcher) (mm : smap) : bool := forallb (fun m => mm_match_gen ci m mm) l.
+Definition mms_match := mms_match_gen false.
 
 (* timeMatchType.Get: unknown strings fall back to Equal *)
 Inductive tmt := TNonNull | TEqual | TBefore | TBeforeEqual | TAfter | TAfterEqual.
@@ -81,8 +93,9 @@ Definition q_all : query := mkQ None None None None None None None None None Non
 
 Definition match_cmp {A} (eqb : A -> A -> bool) (v : A) (m : option A) : bool :=
   match m with None => true | Some x => eqb v x end.
-Definition match_map (v : smap) (m : option (list mapmatcher)) : bool :=
-  match m with None => true | Some l => mms_match l v end.
+Definition match_map_gen (ci : bool) (v : smap) (m : option (list mapmatcher)) : bool :=
+  match m with None => true | Some l => mms_match_gen ci l v end.
+Definition match_map := match_map_gen false.
 Definition match_time (v : gtime) (m : option timematcher) : bool :=
   match m with None => true | Some tm => tm_match tm (Some v) end.
 Definition match_opt_time (v : option gtime) (m : option (option timematcher)) : bool :=
@@ -93,14 +106,16 @@ Definition match_opt_time (v : option gtime) (m : option (option timematcher)) :
   end.
 
 (* TaskQueryParam.Match *)
-Definition q_match (q : query) (t : task) : bool :=
+Definition q_match_gen (ci : bool) (q : query) (t : task) : bool :=
   match_cmp String.eqb (t_id t) (q_id q) && match_cmp String.eqb (t_work t) (q_work q)
   && match_cmp Z.eqb (t_prio t) (q_prio q) && match_cmp state_eqb (t_state t) (q_state q)
   && match_cmp String.eqb (t_err t) (q_err q)
-  && match_map (t_param t) (q_param q) && match_map (t_meta t) (q_meta q)
+  && match_map_gen ci (t_param t) (q_param q) && match_map_gen ci (t_meta t) (q_meta q)
   && match_time (t_sched t) (q_sched q) && match_time (t_created t) (q_created q)
   && match_opt_time (t_deadline t) (q_deadline q) && match_opt_time (t_cancelled t) (q_cancelled q)
   && match_opt_time (t_dispatched t) (q_dispatched q) && match_opt_time (t_done t) (q_done q).
+
+Definition q_match := q_match_gen false.
 
 Definition norm_tm (m : timematcher) : timematcher := TM (tm_type m) (norm (tm_value m)).
 
@@ -114,16 +129,17 @@ Definition norm_query (deadline_too : bool) (q : query) : query :=
       (omap (omap norm_tm) (q_dispatched q)) (omap (omap norm_tm) (q_done q)).
 
 (* the counter loop of InMemoryRepository.Find *)
-Fixpoint find_loop (q : query) (l : list task) (offset limit : Z) : list task :=
+Fixpoint find_loop_gen (m : task -> bool) (l : list task) (offset limit : Z) : list task :=
   match l with
   | [] => []
   | t :: r =>
-    if q_match q t then
-      if negb (offset =? 0) then find_loop q r (offset - 1) limit
+    if m t then
+      if negb (offset =? 0) then find_loop_gen m r (offset - 1) limit
       else if limit =? 0 then []
-      else t :: find_loop q r offset (if 0 <? limit then limit - 1 else limit)
-    else find_loop q r offset limit
+      else t :: find_loop_gen m r offset (if 0 <? limit then limit - 1 else limit)
+    else find_loop_gen m r offset limit
   end.
+Definition find_loop (q : query) := find_loop_gen (q_match q).
 
 (* declarative window: skip [offset], take [limit] (negative = all) *)
 Definition window (offset limit : Z) (l : list task) : list task :=
